@@ -28,9 +28,9 @@ META = {
                     'nodes are identified by id; full names must be unique for a graph to be serialisable (C02)'],
     'shards': {'quick': 8, 'thorough': 16},
     'quotas': {
-        'quick': {'format:json': 200, 'format:yml': 200, 'with-model': 150, 'without-model': 150, 'class:false-flag': 100,
+        'quick': {'format:json': 100, 'format:yml': 100, 'with-model': 100, 'without-model': 150, 'class:false-flag': 100,
                   'class:tags': 100, 'class:attackers>=2': 50, 'class:name-sharing-attackers': 20, 'class:attacker-id-0': 30,
-                  'class:entry-point-not-reached': 30, 'class:pruned': 50, 'class:extras': 50, 'nodes-compared': 5000,
+                  'class:entry-point-not-reached': 30, 'class:pruned': 50, 'class:extras': 50, 'nodes-compared': 3000,
                   'class:viable-ne-necessary': 50},
         'thorough': {'format:json': 15000, 'format:yml': 15000, 'with-model': 10000, 'without-model': 10000,
                      'class:name-sharing-attackers': 1000, 'nodes-compared': 400000},
